@@ -75,7 +75,7 @@ fn gen_case(dna: &[u8], base: &crate::gen::GenCfg) -> Case {
 	cfg.newer = newer;
 	let unknown = mode % 128 < 96 || !newer;
 	let udna: Vec<u8> = (0..96).map(|_| d.u8()).collect();
-	let m = crate::gen::gen_model(&mut d, &cfg);
+	let m = super::gen_model_mixed(&mut d, &cfg, true);
 	let mut raw = m.raw();
 	let mut in_frame = 0;
 	if unknown {
